@@ -288,10 +288,10 @@ c11_setop!(c11_setops_setdiff_2x2, quick, 4, setop_filter, 2, 2, SetDiff);
 c11_setop!(c11_setops_inter_3x3, quick, 6, setop_filter, 3, 3, Inter);
 c11_setop!(c11_setops_inter1small_3x3, quick, 4, setop_filter, 3, 3, Inter1Small);
 c11_setop!(c11_setops_interfast_3x3, thorough, 6, setop_fast, 3, 3, InterFast);
-c11_setop!(c11_setops_interfast_3x1, quick, 6, setop_fast, 3, 1, InterFast);
-c11_setop!(c11_setops_interfast_4x1, quick, 7, setop_fast, 4, 1, InterFast);
-c11_setop!(c11_setops_inter2fast_3x1, quick, 6, setop_fast, 3, 1, Inter2Fast);
-c11_setop!(c11_setops_interfast_1x3, quick, 6, setop_fast, 1, 3, InterFast);
+c11_setop!(c11_setops_interfast_3x1, thorough, 6, setop_fast, 3, 1, InterFast);
+c11_setop!(c11_setops_interfast_4x1, thorough, 7, setop_fast, 4, 1, InterFast);
+c11_setop!(c11_setops_inter2fast_3x1, thorough, 6, setop_fast, 3, 1, Inter2Fast);
+c11_setop!(c11_setops_interfast_1x3, thorough, 6, setop_fast, 1, 3, InterFast);
 c11_setop!(c11_setops_inter2_3x3, quick, 6, setop_filter, 3, 3, Inter2);
 c11_setop!(c11_setops_inter2small_3x3, quick, 4, setop_filter, 3, 3, Inter2Small);
 c11_setop!(c11_setops_inter2fast_3x3, thorough, 6, setop_fast, 3, 3, Inter2Fast);
@@ -973,5 +973,5 @@ macro_rules! c11_multiway_hier {
         }
     };
 }
-c11_multiway_hier!(c11_multiway_hier_k3_l1_w1, quick, 8, 3, 1, 3, 1);
+c11_multiway_hier!(c11_multiway_hier_k3_l1_w1, thorough, 8, 3, 1, 3, 1);
 c11_multiway_hier!(c11_multiway_hier_k5_l1_w2, thorough, 10, 5, 1, 5, 2);
